@@ -243,6 +243,24 @@ def build_harness(profile="debug", features=()):
     return dst, ""
 
 
+def probe_diagnostics(binary):
+    """which tables (0 gamma, 1 delta, 2 zeta3) does the library flag at construction of each reader kind"""
+    p = subprocess.run([binary, "--probe-diagnostics"], stdout=subprocess.PIPE, stderr=subprocess.PIPE)
+    cur = None
+    flagged = {}
+    for line in p.stderr.decode("utf-8", "replace").split("\n"):
+        m = re.match(r"PROBE (\w+) (BEGIN|END)", line)
+        if m:
+            cur = m.group(1) if m.group(2) == "BEGIN" else None
+            if cur:
+                flagged[cur] = set()
+        elif cur and "DANGER" in line:
+            for t, ch in ((0, "\u03b3"), (1, "\u03b4"), (2, "\u03b6")):
+                if ch in line:
+                    flagged[cur].add(t)
+    return flagged
+
+
 # ------------------------------------------------------------------------------ execution
 def _run_shard(args):
     cmd, lines = args
@@ -458,6 +476,15 @@ def run_check(prop, tier, seed, replay, skip_coq=False):
             coq["ok"] = False
             coq["discharged"] = []
             coq["log_tail"] += "\nAUDIT: " + "; ".join(bad[:10])
+        if tier == "thorough" and coq["ok"]:
+            # independent re-check of the compiled files with coqchk (lists the axioms they rely on)
+            mods = ["DSI.Props." + f for f in PROP_FILES.get(prop, [prop]) if os.path.exists(os.path.join(COQ, "props", f + ".vo"))]
+            rc, out = sh("timeout 3000 coqchk -o -silent -Q theories DSI -Q gen DSI.Gen -Q props DSI.Props " + " ".join(mods), cwd=COQ, timeout=3100)
+            v.notes.append("coqchk: rc=%d %s" % (rc, " | ".join(l.strip() for l in out.strip().split("\n")[-6:])))
+            if rc != 0 or "Axioms: <none>" not in out.replace("\n", " "):
+                if rc != 0:
+                    coq["ok"] = False
+                    coq["log_tail"] += "\ncoqchk failed: " + out[-1500:]
     # --- correspondence side
     driver, dlog = build_driver()
     if driver is None:
